@@ -1,7 +1,526 @@
-(* Ledger/Proofs.v — lemmas about Ledger/Model.v *)
+(* Ledger/Proofs.v — the state invariant of the account ledger and its preservation by
+   every operation (Ledger/Model.v).  The property-level theorems are in Proofs2.v. *)
 From Coq Require Import Lia ZifyBool ZifyN ZifyNat.
 From HostdBase Require Import Base.
-From HostdLedger Require Import Model.
+From HostdLedger Require Import Model Lib.
 
-Lemma observers_pure : forall s a, fst (step s (Balance a)) = s.
+Local Open Scope N_scope.
+Set Implicit Arguments.
+
+(** * Checked arithmetic *)
+Lemma cadd_ok : forall x y, x + y < two128 -> cadd x y = Ok (x + y).
+Proof. intros. unfold cadd. destruct (x + y <? two128) eqn:E; [reflexivity | lia]. Qed.
+Lemma cadd_inv : forall x y z, cadd x y = Ok z -> z = x + y /\ x + y < two128.
+Proof. unfold cadd; intros x y z. destruct (x + y <? two128) eqn:E; intros H; [injection H as <-; lia | discriminate]. Qed.
+Lemma cadd_not_err : forall x y e, cadd x y <> Err e.
+Proof. unfold cadd; intros. destruct (x + y <? two128); discriminate. Qed.
+Lemma csub_ok : forall x y, y <= x -> csub x y = Ok (x - y).
+Proof. intros. unfold csub. destruct (y <=? x) eqn:E; [reflexivity | lia]. Qed.
+Lemma csub_inv : forall x y z, csub x y = Ok z -> y <= x /\ z = x - y.
+Proof. unfold csub; intros x y z. destruct (y <=? x) eqn:E; intros H; [injection H as <-; lia | discriminate]. Qed.
+
+Lemma stat_add_ok : forall m d, m + d < two128 -> stat_add m d = Ok (m + d).
+Proof. intros. unfold stat_add. destruct (d =? 0) eqn:E; [f_equal; lia | apply cadd_ok; assumption]. Qed.
+Lemma stat_sub_ok : forall m d, d <= m -> stat_sub m d = Ok (m - d).
+Proof. intros. unfold stat_sub. destruct (d =? 0) eqn:E; [f_equal; lia | apply csub_ok; assumption]. Qed.
+
+Definition usum (u : usage) : N := uRpc u + uStorage u + uEgress u + uIngress u + uRegR u + uRegW u.
+
+Lemma utotal_spec : forall u, utotal u = if usum u <? two128 then Ok (usum u) else Panic.
+Proof.
+  intros [r s e i x y]. unfold utotal, usum, cadd, bind; cbn [uRpc uStorage uEgress uIngress uRegR uRegW].
+  destruct (r + s <? two128) eqn:E1.
+  2:{ destruct (r + s + e + i + x + y <? two128) eqn:E; [lia | reflexivity]. }
+  destruct (r + s + e <? two128) eqn:E2.
+  2:{ destruct (r + s + e + i + x + y <? two128) eqn:E; [lia | reflexivity]. }
+  destruct (r + s + e + i <? two128) eqn:E3.
+  2:{ destruct (r + s + e + i + x + y <? two128) eqn:E; [lia | reflexivity]. }
+  destruct (r + s + e + i + x <? two128) eqn:E4.
+  2:{ destruct (r + s + e + i + x + y <? two128) eqn:E; [lia | reflexivity]. }
+  reflexivity.
+Qed.
+
+Lemma utotal_ok : forall u t, utotal u = Ok t -> t = usum u /\ usum u < two128.
+Proof. intros u t. rewrite utotal_spec. destruct (usum u <? two128) eqn:E; intros H; [injection H as <-; lia | discriminate]. Qed.
+Lemma utotal_not_err : forall u e, utotal u <> Err e.
+Proof. intros u e. rewrite utotal_spec. destruct (usum u <? two128); discriminate. Qed.
+Lemma utotal_small : forall u, usum u < two128 -> utotal u = Ok (usum u).
+Proof. intros u H. rewrite utotal_spec. destruct (usum u <? two128) eqn:E; [reflexivity | lia]. Qed.
+
+Lemma usub_le : forall a b c, usub a b = Ok c -> usum c <= usum a.
+Proof.
+  intros [r s e i x y] [r' s' e' i' x' y'] c. unfold usub, bind, csub, usum; cbn [uRpc uStorage uEgress uIngress uRegR uRegW].
+  destruct (r' <=? r) eqn:E1; [|discriminate].
+  destruct (s' <=? s) eqn:E2; [|discriminate].
+  destruct (e' <=? e) eqn:E3; [|discriminate].
+  destruct (i' <=? i) eqn:E4; [|discriminate].
+  destruct (x' <=? x) eqn:E5; [|discriminate].
+  destruct (y' <=? y) eqn:E6; [|discriminate].
+  intros H; injection H as <-. cbn [uRpc uStorage uEgress uIngress uRegR uRegW]. lia.
+Qed.
+
+(** * Open reservations *)
+Definition isopen (a : N) (bd : budget) : bool := (bacct bd =? a) && negb (bdone bd).
+Definition cmax (a : N) (bd : budget) : N := if isopen a bd then bmax bd else 0.
+Definition cone (a : N) (bd : budget) : N := if isopen a bd then 1 else 0.
+(* sum of the [max] of the open budgets on account a / their number *)
+Definition openmax (s : state) (a : N) : N := bsum (cmax a) (budgets s).
+Definition opencount (s : state) (a : N) : N := bsum (cone a) (budgets s).
+
+Lemma count0_max0 : forall l a, bsum (cone a) l = 0 -> bsum (cmax a) l = 0.
+Proof.
+  induction l as [|h t IH]; intros a; cbn [bsum]; [reflexivity|].
+  unfold cone at 1, cmax at 1. destruct (isopen a h); intros H; [lia | rewrite (IH a); lia].
+Qed.
+
+Lemma open_counted : forall l b bd, nth_error l b = Some bd -> bdone bd = false ->
+  0 < bsum (cone (bacct bd)) l /\ bmax bd <= bsum (cmax (bacct bd)) l.
+Proof.
+  induction l as [|h t IH]; intros [|b] bd H Hd; cbn [nth_error] in H; try discriminate; cbn [bsum].
+  - injection H as ->. unfold cone, cmax, isopen. rewrite N.eqb_refl, Hd. cbn [negb andb]. lia.
+  - destruct (IH _ _ H Hd). lia.
+Qed.
+
+(** * The invariant *)
+Definition usage_ok (bd : budget) : Prop :=
+  bdone bd = false -> exists t, utotal (busage bd) = Ok t /\ t <= bmax bd.
+
+Definition mem_ok (B : N) (s : state) (a : N) : Prop :=
+  match alookup a (mem s) with
+  | Some e => mopen e = Z.of_N (opencount s a) /\ 0 < opencount s a /\ mbal e + openmax s a <= B
+  | None => opencount s a = 0
+  end.
+
+Record Inv (B : N) (s : state) : Prop := {
+  inv_metric : mBalance s = asum (store s);
+  inv_active : mActive s = N.of_nat (length (store s));
+  inv_bound : asum (store s) <= B;
+  inv_nodup : nodupk (mem s);
+  inv_mem : forall a, mem_ok B s a;
+  inv_usage : forall b bd, nth_error (budgets s) b = Some bd -> usage_ok bd
+}.
+
+Lemma Inv_init : Inv 0 init.
+Proof.
+  constructor.
+  - reflexivity.
+  - reflexivity.
+  - cbn. lia.
+  - constructor.
+  - intros a. reflexivity.
+  - intros [|b] bd H; discriminate.
+Qed.
+
+Lemma Inv_mono : forall B B' s, Inv B s -> B <= B' -> Inv B' s.
+Proof.
+  intros B B' s [] HB. constructor; try assumption; try lia.
+  intros a. specialize (inv_mem0 a). unfold mem_ok in *. destruct (alookup a (mem s)); [|assumption].
+  destruct inv_mem0 as (?&?&?). repeat split; try assumption; lia.
+Qed.
+
+Lemma sbal_getv : forall s a, sbal s a = getv a (store s).
 Proof. reflexivity. Qed.
+
+Lemma sbal_le : forall B s a, Inv B s -> sbal s a <= B.
+Proof. intros B s a I. rewrite sbal_getv. pose proof (getv_le_asum a (store s)). pose proof (inv_bound I). lia. Qed.
+
+Lemma get_balance_le : forall B s a, Inv B s -> get_balance s a <= B.
+Proof.
+  intros B s a I. unfold get_balance. pose proof (inv_mem I a) as M. unfold mem_ok in M.
+  destruct (alookup a (mem s)); [destruct M as (_&_&?); lia | exact (sbal_le a I)].
+Qed.
+
+(* an open budget keeps its account cached *)
+Lemma open_cached : forall B s b bd, Inv B s -> nth_error (budgets s) b = Some bd -> bdone bd = false ->
+  exists e, alookup (bacct bd) (mem s) = Some e.
+Proof.
+  intros B s b bd I H Hd. pose proof (inv_mem I (bacct bd)) as M. unfold mem_ok in M.
+  destruct (alookup (bacct bd) (mem s)) as [e|]; [eauto|].
+  destruct (open_counted _ _ H Hd) as [Hc _]. unfold opencount in M. lia.
+Qed.
+
+(** * Store-only changes *)
+Lemma inv_set_store : forall B B' s st mb ma, Inv B s -> B <= B' ->
+  mb = asum st -> ma = N.of_nat (length st) -> asum st <= B' ->
+  Inv B' (set_store s st mb ma).
+Proof.
+  intros B B' s st mb ma I HB Hm Ha Hb. pose proof (Inv_mono I HB) as [].
+  constructor; cbn [set_store store mBalance mActive mem budgets]; try assumption.
+Qed.
+
+(** * release: the common tail of Commit and Rollback *)
+Lemma release_inv : forall B s a back e,
+  B < two128 ->
+  mBalance s = asum (store s) -> mActive s = N.of_nat (length (store s)) -> asum (store s) <= B ->
+  nodupk (mem s) ->
+  (forall a', a' <> a -> mem_ok B s a') ->
+  (forall b bd, nth_error (budgets s) b = Some bd -> usage_ok bd) ->
+  alookup a (mem s) = Some e ->
+  mopen e = Z.of_N (opencount s a + 1) ->
+  mbal e + back + openmax s a <= B ->
+  Inv B (fst (release s a back)) /\ snd (release s a back) = ODone /\
+  store (fst (release s a back)) = store s /\ budgets (fst (release s a back)) = budgets s /\
+  (alookup a (mem (fst (release s a back))) =
+     if (opencount s a =? 0) then None else Some {| mbal := mbal e + back; mopen := mopen e - 1 |}) /\
+  (forall a', a' <> a -> alookup a' (mem (fst (release s a back))) = alookup a' (mem s)).
+Proof.
+  intros B s a back e HB Hm Ha Hb Hn Ho Hu He Hopen Hbound.
+  unfold release. rewrite He.
+  destruct (mopen e - 1 <=? 0)%Z eqn:E.
+  - (* last open budget: the entry is dropped *)
+    assert (Hc : opencount s a = 0) by lia.
+    cbn [fst snd]. rewrite Hc, N.eqb_refl.
+    refine (conj _ (conj _ (conj _ (conj _ (conj _ _))))); try reflexivity.
+    + constructor; cbn [set_mem store mBalance mActive mem budgets]; try assumption.
+      * apply nodupk_aremove; assumption.
+      * intros a'. unfold mem_ok, opencount, openmax. cbn [set_mem mem budgets].
+        rewrite alookup_aremove by assumption. destruct (a' =? a) eqn:Ea.
+        -- apply N.eqb_eq in Ea; subst a'. exact Hc.
+        -- apply N.eqb_neq in Ea. exact (Ho a' Ea).
+    + cbn [set_mem mem]. rewrite alookup_aremove, N.eqb_refl by assumption. reflexivity.
+    + intros a' Ha'. cbn [set_mem mem]. rewrite alookup_aremove by assumption.
+      destruct (a' =? a) eqn:Ea; [apply N.eqb_eq in Ea; contradiction | reflexivity].
+  - assert (Hc : 0 < opencount s a) by lia.
+    rewrite cadd_ok by lia. cbn [fst snd].
+    destruct (opencount s a =? 0) eqn:E0; [lia|].
+    refine (conj _ (conj _ (conj _ (conj _ (conj _ _))))); try reflexivity.
+    + constructor; cbn [set_mem store mBalance mActive mem budgets]; try assumption.
+      * apply nodupk_aset; assumption.
+      * intros a'. unfold mem_ok, opencount, openmax. cbn [set_mem mem budgets].
+        rewrite alookup_aset. destruct (a' =? a) eqn:Ea.
+        -- apply N.eqb_eq in Ea; subst a'. cbn [mbal mopen]. fold (opencount s a). fold (openmax s a). lia.
+        -- apply N.eqb_neq in Ea. exact (Ho a' Ea).
+    + cbn [set_mem mem]. rewrite alookup_aset_same. reflexivity.
+    + intros a' Ha'. cbn [set_mem mem]. apply alookup_aset_other; assumption.
+Qed.
+
+(** * Well-formed operations and the amount an operation tries to deposit *)
+(* coreutils' RPCFundAccounts/RPCReplenishAccounts pass usage.AccountFunding = sum of the deposits
+   (rhp4.ReviseForFundAccounts); the store trusts its caller on that. *)
+Definition wf_op (o : op) : Prop :=
+  match o with R4Credit deps fund _ => fund = asum deps | _ => True end.
+Definition att (o : op) : N :=
+  match o with Credit _ amt _ _ _ => amt | R4Credit deps _ _ => asum deps | _ => 0 end.
+
+Fixpoint amt_for (x : N) (l : list (N * N)) : N :=
+  match l with [] => 0 | (k, v) :: t => (if k =? x then v else 0) + amt_for x t end.
+
+Lemma getv_aset : forall k v x l, getv x (aset k v l) = if x =? k then v else getv x l.
+Proof. intros. unfold getv. rewrite alookup_aset. destruct (x =? k); reflexivity. Qed.
+
+Lemma r4_deposits_ok : forall deps st created bals, asum st + asum deps < two128 ->
+  exists st' c' bals', r4_deposits st created bals deps = Ok (st', c', bals') /\
+    asum st' = asum st + asum deps /\
+    N.of_nat (length st') + created = N.of_nat (length st) + c' /\
+    forall x, getv x st' = getv x st + amt_for x deps.
+Proof.
+  induction deps as [|[a amt] t IH]; intros st created bals Hb; cbn [r4_deposits asum amt_for].
+  - exists st, created, bals. repeat split; try lia.
+  - cbn [asum] in Hb.
+    pose proof (getv_le_asum a st) as Hle. pose proof (asum_aset a (getv a st + amt) st) as Hs.
+    pose proof (length_aset _ a (getv a st + amt) st) as Hl.
+    unfold getv in Hle, Hs, Hl. unfold bind.
+    destruct (alookup a st) as [cur|] eqn:L.
+    + rewrite cadd_ok by lia.
+      destruct (IH (aset a (cur + amt) st) created (bals ++ [cur + amt])) as (st'&c'&bals'&E&H1&H2&H3); [|lia].
+      exists st', c', bals'. rewrite E. repeat split; try lia.
+      intros x. rewrite H3, getv_aset. unfold getv at 2. destruct (x =? a) eqn:Ex.
+      * apply N.eqb_eq in Ex; subst x. rewrite L, N.eqb_refl. lia.
+      * rewrite N.eqb_sym, Ex. unfold getv. lia.
+    + rewrite cadd_ok by lia.
+      destruct (IH (aset a (0 + amt) st) (created + 1) (bals ++ [0 + amt])) as (st'&c'&bals'&E&H1&H2&H3); [|lia].
+      exists st', c', bals'. rewrite E. repeat split; try lia.
+      intros x. rewrite H3, getv_aset. unfold getv at 2. destruct (x =? a) eqn:Ex.
+      * apply N.eqb_eq in Ex; subst x. rewrite L, N.eqb_refl. lia.
+      * rewrite N.eqb_sym, Ex. unfold getv. lia.
+Qed.
+
+(** * Budget list updates *)
+Lemma close_sums : forall l b bd bd' a, nth_error l b = Some bd -> bdone bd = false -> bdone bd' = true ->
+  (bsum (cone a) (upd_nth b bd' l) + cone a bd = bsum (cone a) l) /\
+  (bsum (cmax a) (upd_nth b bd' l) + cmax a bd = bsum (cmax a) l).
+Proof.
+  intros l b bd bd' a H Hd Hd'.
+  pose proof (bsum_upd (cone a) l b bd' H) as H1. pose proof (bsum_upd (cmax a) l b bd' H) as H2.
+  assert (cone a bd' = 0 /\ cmax a bd' = 0) as [E1 E2].
+  { unfold cone, cmax, isopen. rewrite Hd'. rewrite Bool.andb_false_r. split; reflexivity. }
+  lia.
+Qed.
+
+Lemma cone_open : forall bd, bdone bd = false -> cone (bacct bd) bd = 1 /\ cmax (bacct bd) bd = bmax bd.
+Proof. intros bd Hd. unfold cone, cmax, isopen. rewrite N.eqb_refl, Hd. split; reflexivity. Qed.
+Lemma cone_other : forall bd a, a <> bacct bd -> cone a bd = 0 /\ cmax a bd = 0.
+Proof.
+  intros bd a Ha. unfold cone, cmax, isopen. destruct (bacct bd =? a) eqn:E; [apply N.eqb_eq in E; congruence|].
+  split; reflexivity.
+Qed.
+
+Lemma inv_upd_budget : forall B s b bd bd', Inv B s -> nth_error (budgets s) b = Some bd ->
+  bacct bd' = bacct bd -> bdone bd' = bdone bd -> bmax bd' = bmax bd -> usage_ok bd' ->
+  Inv B (set_budgets s (upd_nth b bd' (budgets s))).
+Proof.
+  intros B s b bd bd' I H Ha Hd Hm Hu. destruct I.
+  constructor; cbn [set_budgets store mBalance mActive mem budgets]; try assumption.
+  - intros a. specialize (inv_mem0 a). unfold mem_ok, opencount, openmax in *. cbn [set_budgets mem budgets].
+    pose proof (bsum_upd (cone a) _ b bd' H) as H1. pose proof (bsum_upd (cmax a) _ b bd' H) as H2.
+    assert (cone a bd' = cone a bd /\ cmax a bd' = cmax a bd) as [E1 E2].
+    { unfold cone, cmax, isopen. rewrite Ha, Hd, Hm. split; reflexivity. }
+    replace (bsum (cone a) (upd_nth b bd' (budgets s))) with (bsum (cone a) (budgets s)) by lia.
+    replace (bsum (cmax a) (upd_nth b bd' (budgets s))) with (bsum (cmax a) (budgets s)) by lia.
+    exact inv_mem0.
+  - intros b' x Hx. rewrite nth_error_upd in Hx. destruct (Nat.eqb b' b).
+    + rewrite H in Hx. injection Hx as <-. exact Hu.
+    + exact (inv_usage0 _ _ Hx).
+Qed.
+
+Lemma inv_reserve : forall B s a amt e, Inv B s ->
+  mopen e = Z.of_N (opencount s a) -> mbal e + openmax s a <= B -> amt <= mbal e ->
+  Inv B (set_budgets (set_mem s (aset a {| mbal := mbal e - amt; mopen := mopen e + 1 |} (mem s)))
+           (budgets s ++ [{| bacct := a; bmax := amt; busage := uzero; bdone := false |}])).
+Proof.
+  intros B s a amt e I Ho Hb Ha. destruct I.
+  constructor; cbn [set_budgets set_mem store mBalance mActive mem budgets]; try assumption.
+  - apply nodupk_aset; assumption.
+  - intros a'. specialize (inv_mem0 a'). unfold mem_ok, opencount, openmax in *.
+    cbn [set_budgets set_mem mem budgets]. rewrite !bsum_app, alookup_aset.
+    destruct (a' =? a) eqn:Ea.
+    + apply N.eqb_eq in Ea; subst a'.
+      destruct (@cone_open {| bacct := a; bmax := amt; busage := uzero; bdone := false |} eq_refl) as [E1 E2].
+      cbn [bacct bmax] in E1, E2. rewrite E1, E2. cbn [mbal mopen]. lia.
+    + apply N.eqb_neq in Ea.
+      destruct (@cone_other {| bacct := a; bmax := amt; busage := uzero; bdone := false |} a' Ea) as [E1 E2].
+      rewrite E1, E2, !N.add_0_r. exact inv_mem0.
+  - intros b x Hx. destruct (nth_error_app1 _ _ _ Hx) as [Hx'|[_ ->]].
+    + exact (inv_usage0 _ _ Hx').
+    + intros _. exists 0. split; [reflexivity | cbn [bmax]; lia].
+Qed.
+
+Lemma inv_set_mem_bal : forall B s a e nb, Inv B s -> alookup a (mem s) = Some e ->
+  nb + openmax s a <= B ->
+  Inv B (set_mem s (aset a {| mbal := nb; mopen := mopen e |} (mem s))).
+Proof.
+  intros B s a e nb I L Hb. destruct I.
+  constructor; cbn [set_mem store mBalance mActive mem budgets]; try assumption.
+  - apply nodupk_aset; assumption.
+  - intros a'. specialize (inv_mem0 a'). unfold mem_ok, opencount, openmax in *. cbn [set_mem mem budgets].
+    rewrite alookup_aset. destruct (a' =? a) eqn:Ea; [|exact inv_mem0].
+    apply N.eqb_eq in Ea; subst a'. rewrite L in inv_mem0. cbn [mbal mopen]. lia.
+Qed.
+
+(** * Preservation, operation by operation *)
+Lemma inv_credit : forall B s a amt refund expired cok, Inv B s -> B + amt < two128 ->
+  Inv (B + amt) (fst (step s (Credit a amt refund expired cok))).
+Proof.
+  intros B s a amt refund expired cok I HB.
+  assert (I' : Inv (B + amt) s) by (apply (Inv_mono I); lia).
+  cbn [step]. destruct expired; [exact I'|].
+  unfold finish, bind.
+  rewrite cadd_ok by (pose proof (get_balance_le a I); lia).
+  destruct (negb refund && (maxbal s <? get_balance s a + amt)); [exact I'|].
+  unfold store_credit, bind. rewrite cadd_ok by (pose proof (sbal_le a I); lia).
+  rewrite stat_add_ok by (rewrite (inv_metric I); pose proof (inv_bound I); lia).
+  destruct cok; [|exact I'].
+  cbn [fst].
+  pose proof (asum_aset a (sbal s a + amt) (store s)) as Hs. rewrite <- sbal_getv in Hs.
+  pose proof (length_aset _ a (sbal s a + amt) (store s)) as Hl.
+  match goal with |- Inv _ (match alookup a (mem ?S1) with _ => _ end) => set (s1 := S1) end.
+  assert (I1 : Inv (B + amt) s1).
+  { apply inv_set_store with (B := B); try assumption; try lia.
+    - rewrite (inv_metric I). lia.
+    - rewrite (inv_active I). destruct (alookup a (store s)); rewrite Hl; lia.
+    - pose proof (inv_bound I). lia. }
+  change (mem s1) with (mem s).
+  destruct (alookup a (mem s)) as [e|] eqn:L; [|exact I1].
+  apply inv_set_mem_bal; [exact I1 | exact L |].
+  pose proof (inv_mem I a) as M. unfold mem_ok in M. rewrite L in M.
+  unfold get_balance. rewrite L. change (openmax s1 a) with (openmax s a). lia.
+Qed.
+
+Lemma inv_newbudget : forall B s a amt rok, Inv B s -> Inv B (fst (step s (NewBudget a amt rok))).
+Proof.
+  intros B s a amt rok I. cbn [step]. unfold finish, bind.
+  pose proof (inv_mem I a) as M. unfold mem_ok in M.
+  destruct (alookup a (mem s)) as [e|] eqn:L.
+  - destruct (mbal e <? amt) eqn:C; [exact I|]. cbn [fst].
+    apply inv_reserve; try assumption; try lia; tauto.
+  - destruct rok; [|exact I]. cbn [mbal mopen].
+    destruct (sbal s a <? amt) eqn:C; [exact I|]. cbn [fst].
+    apply (@inv_reserve B s a amt {| mbal := sbal s a; mopen := 0 |}); cbn [mbal mopen]; try assumption; try lia.
+    unfold openmax. rewrite (count0_max0 _ _ M). pose proof (sbal_le a I). lia.
+Qed.
+
+Lemma inv_spend : forall B s b u, Inv B s -> Inv B (fst (step s (Spend b u))).
+Proof.
+  intros B s b u I. cbn [step]. destruct (nth_error (budgets s) b) as [bd|] eqn:Hn; [|exact I].
+  unfold finish, bind. destruct (uadd (busage bd) u) as [nu| |]; try exact I.
+  destruct (utotal nu) as [sp| |] eqn:T; try exact I.
+  destruct (bmax bd <? sp) eqn:C; [exact I|]. cbn [fst].
+  apply inv_upd_budget with (bd := bd); try assumption; try reflexivity.
+  intros _. exists sp. cbn [with_usage busage bmax]. split; [exact T | lia].
+Qed.
+
+Lemma inv_refund : forall B s b u, Inv B s -> Inv B (fst (step s (Refund b u))).
+Proof.
+  intros B s b u I. cbn [step]. destruct (nth_error (budgets s) b) as [bd|] eqn:Hn; [|exact I].
+  destruct (bdone bd) eqn:Hd; [exact I|].
+  unfold finish, bind. destruct (usub (busage bd) u) as [nu| |] eqn:S; try exact I. cbn [fst].
+  apply inv_upd_budget with (bd := bd); try assumption; try reflexivity.
+  intros _. destruct (inv_usage I _ _ Hn Hd) as (t&Ht&Hle). cbn [with_usage busage bmax].
+  destruct (utotal_ok _ Ht) as [-> Hs]. pose proof (usub_le _ _ S).
+  exists (usum nu). split; [apply utotal_small; lia | lia].
+Qed.
+
+Lemma closed_rest : forall B s s1 b bd bd', Inv B s ->
+  nth_error (budgets s) b = Some bd -> bdone bd = false -> bdone bd' = true ->
+  mem s1 = mem s -> budgets s1 = upd_nth b bd' (budgets s) ->
+  (forall a', a' <> bacct bd -> mem_ok B s1 a') /\
+  (forall b' x, nth_error (budgets s1) b' = Some x -> usage_ok x) /\
+  opencount s1 (bacct bd) + 1 = opencount s (bacct bd) /\
+  openmax s1 (bacct bd) + bmax bd = openmax s (bacct bd).
+Proof.
+  intros B s s1 b bd bd' I Hn Hd Hd' Em Eb.
+  refine (conj _ (conj _ _)).
+  - intros a' Ha'. pose proof (inv_mem I a') as M. unfold mem_ok, opencount, openmax in *. rewrite Em, Eb.
+    destruct (close_sums _ b bd' a' Hn Hd Hd') as [H1 H2].
+    destruct (@cone_other bd a' Ha') as [E1 E2]. rewrite E1 in H1. rewrite E2 in H2.
+    rewrite N.add_0_r in H1, H2. rewrite H1, H2. exact M.
+  - intros b' x Hx. rewrite Eb, nth_error_upd in Hx. destruct (Nat.eqb b' b).
+    + rewrite Hn in Hx. injection Hx as <-. intros Hf. congruence.
+    + exact (inv_usage I _ _ Hx).
+  - unfold opencount, openmax. rewrite Eb.
+    destruct (close_sums _ b bd' (bacct bd) Hn Hd Hd') as [H1 H2].
+    destruct (cone_open _ Hd) as [E1 E2]. rewrite E1 in H1. rewrite E2 in H2. lia.
+Qed.
+
+Lemma inv_rollback : forall B s b, Inv B s -> B < two128 -> Inv B (fst (step s (Rollback b))).
+Proof.
+  intros B s b I HB. cbn [step]. destruct (nth_error (budgets s) b) as [bd|] eqn:Hn; [|exact I].
+  destruct (bdone bd) eqn:Hd; [exact I|].
+  destruct (open_cached I _ Hn Hd) as [e He]. rewrite He.
+  set (s1 := set_budgets s (upd_nth b (mark_done bd) (budgets s))).
+  destruct (@closed_rest B s s1 b bd (mark_done bd) I Hn Hd eq_refl eq_refl eq_refl) as (R1&R2&R3&R4).
+  pose proof (inv_mem I (bacct bd)) as M. unfold mem_ok in M. rewrite He in M.
+  apply (@release_inv B s1 (bacct bd) (bmax bd) e); try assumption.
+  - exact (inv_metric I).
+  - exact (inv_active I).
+  - exact (inv_bound I).
+  - exact (inv_nodup I).
+  - rewrite R3. tauto.
+  - lia.
+Qed.
+
+Lemma store_debit_ok : forall B s a u t, Inv B s -> utotal u = Ok t ->
+  match store_debit s a u with
+  | Ok s1 => exists bal, alookup a (store s) = Some bal /\ t <= bal /\
+             s1 = set_store s (aset a (bal - t) (store s)) (mBalance s - t) (mActive s) /\
+             Inv B s1
+  | Err _ => True
+  | Panic => False
+  end.
+Proof.
+  intros B s a u t I T. unfold store_debit, bind. rewrite T.
+  destruct (alookup a (store s)) as [bal|] eqn:L; [|exact Logic.I].
+  destruct (bal <? t) eqn:C; [exact Logic.I|].
+  rewrite csub_ok by lia.
+  pose proof (getv_le_asum a (store s)) as Hle. unfold getv in Hle. rewrite L in Hle.
+  rewrite stat_sub_ok by (rewrite (inv_metric I); lia).
+  exists bal. repeat split; try lia.
+  pose proof (asum_aset a (bal - t) (store s)) as Hs. unfold getv in Hs. rewrite L in Hs.
+  pose proof (length_aset _ a (bal - t) (store s)) as Hl. rewrite L in Hl.
+  apply inv_set_store with (B := B); try assumption; try lia.
+  - rewrite (inv_metric I). lia.
+  - rewrite (inv_active I), Hl. reflexivity.
+  - pose proof (inv_bound I). lia.
+Qed.
+
+Lemma inv_commit : forall B s b sok, Inv B s -> B < two128 -> Inv B (fst (step s (Commit b sok))).
+Proof.
+  intros B s b sok I HB. cbn [step]. destruct (nth_error (budgets s) b) as [bd|] eqn:Hn; [|exact I].
+  destruct (bdone bd) eqn:Hd; [exact I|]. destruct sok; [|exact I]. cbn [negb].
+  destruct (inv_usage I _ _ Hn Hd) as (t&Ht&Hle).
+  pose proof (@store_debit_ok B s (bacct bd) (busage bd) t I Ht) as SD.
+  destruct (store_debit s (bacct bd) (busage bd)) as [s1| |]; [|exact I|contradiction].
+  destruct SD as (bal&Lb&Hbal&Es1&I1).
+  unfold bind. rewrite Ht, csub_ok by lia.
+  destruct (open_cached I _ Hn Hd) as [e He].
+  set (s2 := set_budgets s1 (upd_nth b (mark_committed bd) (budgets s1))).
+  assert (Em : mem s2 = mem s) by (subst s2 s1; reflexivity).
+  assert (Eb : budgets s2 = upd_nth b (mark_committed bd) (budgets s)) by (subst s2 s1; reflexivity).
+  destruct (@closed_rest B s s2 b bd (mark_committed bd) I Hn Hd eq_refl Em Eb) as (R1&R2&R3&R4).
+  pose proof (inv_mem I (bacct bd)) as M. unfold mem_ok in M. rewrite He in M.
+  apply (@release_inv B s2 (bacct bd) (bmax bd - t) e); try assumption.
+  - exact (inv_metric I1).
+  - exact (inv_active I1).
+  - exact (inv_bound I1).
+  - rewrite Em. exact (inv_nodup I).
+  - rewrite Em. exact He.
+  - rewrite R3. tauto.
+  - lia.
+Qed.
+
+Lemma inv_r4credit : forall B s deps fund cok, Inv B s -> fund = asum deps -> B + asum deps < two128 ->
+  Inv (B + asum deps) (fst (step s (R4Credit deps fund cok))).
+Proof.
+  intros B s deps fund cok I Hf HB.
+  assert (I' : Inv (B + asum deps) s) by (apply (Inv_mono I); lia).
+  cbn [step]. unfold finish, bind, store_r4credit, bind.
+  destruct cok; cbn [negb]; [|exact I'].
+  pose proof (inv_bound I) as Hb.
+  destruct (@r4_deposits_ok deps (store s) 0 [] ltac:(lia)) as (st'&c'&bals'&E&H1&H2&H3).
+  rewrite E. rewrite stat_add_ok by (rewrite (inv_metric I); lia). cbn [fst].
+  apply inv_set_store with (B := B); try assumption; try lia.
+  - rewrite (inv_metric I). lia.
+  - rewrite (inv_active I). lia.
+Qed.
+
+Lemma inv_r4debit : forall B s a amt, Inv B s -> Inv B (fst (step s (R4Debit a amt))).
+Proof.
+  intros B s a amt I. cbn [step]. unfold finish, bind, store_r4debit, bind.
+  destruct (alookup a (store s)) as [bal|] eqn:L; [|exact I].
+  destruct (bal <? amt) eqn:C; [exact I|].
+  pose proof (getv_le_asum a (store s)) as Hle. unfold getv in Hle. rewrite L in Hle.
+  rewrite stat_sub_ok by (rewrite (inv_metric I); lia). cbn [fst].
+  pose proof (asum_aset a (bal - amt) (store s)) as Hs. unfold getv in Hs. rewrite L in Hs.
+  pose proof (length_aset _ a (bal - amt) (store s)) as Hl. rewrite L in Hl.
+  apply inv_set_store with (B := B); try assumption; try lia.
+  - rewrite (inv_metric I). lia.
+  - rewrite (inv_active I), Hl. reflexivity.
+  - pose proof (inv_bound I). lia.
+Qed.
+
+Lemma inv_setmax : forall B s m, Inv B s -> Inv B (set_max s m).
+Proof. intros B s m []. constructor; assumption. Qed.
+
+Theorem inv_step : forall B s o, Inv B s -> wf_op o -> B + att o < two128 ->
+  Inv (B + att o) (fst (step s o)).
+Proof.
+  intros B s o I W HB.
+  destruct o; cbn [att] in *; rewrite ?N.add_0_r in *;
+    try exact I.
+  - exact (inv_setmax m I).
+  - apply inv_credit; assumption.
+  - apply inv_newbudget; assumption.
+  - apply inv_spend; assumption.
+  - apply inv_refund; assumption.
+  - apply inv_commit; assumption.
+  - apply inv_rollback; assumption.
+  - apply inv_r4credit; assumption.
+  - apply inv_r4debit; assumption.
+Qed.
+
+(** * Histories *)
+Definition runs (s : state) (l : list op) : state := fold_left (fun s o => fst (step s o)) l s.
+Fixpoint atts (l : list op) : N := match l with [] => 0 | o :: t => att o + atts t end.
+
+Theorem inv_runs : forall l B s, Inv B s -> Forall wf_op l -> B + atts l < two128 ->
+  Inv (B + atts l) (runs s l).
+Proof.
+  induction l as [|o t IH]; intros B s I W HB; cbn [runs fold_left atts] in *.
+  - rewrite N.add_0_r. exact I.
+  - inversion W as [|? ? Wo Wt]; subst.
+    replace (B + (att o + atts t)) with ((B + att o) + atts t) by lia.
+    apply IH; [apply inv_step; try assumption; lia | assumption | lia].
+Qed.
+
+Lemma runs_app : forall l1 l2 s, runs s (l1 ++ l2) = runs (runs s l1) l2.
+Proof. intros. unfold runs. apply fold_left_app. Qed.
